@@ -265,6 +265,16 @@ def run(ctx: Ctx, tier: str) -> Result:
                                  "the variable budget was exhausted before the value nothing was recorded, the lookup raises and the snapshot being completed is lost "
                                  "(the identity cache answers None for `not recorded`)" % norm(unguarded[0])))
                 continue
+            # `not recorded` (a literal None id) is an answer for a value nothing was recorded of: given after the search ran, it
+            # disowns entries that were recorded (their ids stay in the identity cache, the caller drops the table part)
+            if isinstance(c.args[0], ast.Constant) and c.args[0].value is None:
+                searches = [c2 for c2 in t.calls_in(f) if any(g_.name in ("breadth_first_search", "process_variable") for g_ in t.resolve_call(c2, f).repo)
+                            and c2.lineno < c.lineno and paths.dominates(p, c2, c, f)]
+                if searches:
+                    res.fail(Finding("C07.OPTIONAL", f.qname, c, f.loc(c), "`%s` answers `not recorded` after `%s` has run: whatever the search recorded before the budget ran out keeps "
+                                     "its id in the identity cache while the caller drops its entries - a later reference to one of those objects points at no entry" % (
+                                         norm(c)[:40], norm(searches[0])[:50])))
+                    continue
             if okid:
                 res.ok("C07.OPTIONAL", {"VariableId id": src[0][:70], "in": f.qname})
             else:
